@@ -104,3 +104,7 @@ REG.contract(K + "Sum.code_with_intercept", params={"levels": "list[any]"}, retu
                       f"forall(0, len(levels) - 1, lambda j: result.labels[j + 1] == label_of(levels[j if j < {O} else j + 1]))"])
 
 FUNCTIONS += [K + "Sum._omit_index", K + "Sum._sum_contrast", K + "Sum.code_without_intercept", K + "Sum.code_with_intercept"]
+
+
+ASSUMPTIONS = ['numpy externals assumed: eye, zeros, ones, empty, vstack, column_stack, basic slicing, region assignment (see vf/pyvc/arrays.py)',
+               'str(level) is an uninterpreted function of the level; list.index is an uninterpreted function with the first-occurrence axioms']
